@@ -1,4 +1,20 @@
 import Spydr.Edif.Props.C03
 import Spydr.Edif.Props.C05
-#print axioms Spydr.Edif.readS_flatten
-#print axioms Spydr.Edif.lex_layout
+#print axioms Spydr.Edif.C05.readS_flatten
+#print axioms Spydr.Edif.C05.multibit_merge
+#print axioms Spydr.Edif.C05.multibit_merge_general
+#print axioms Spydr.Edif.C05.mergeInto_is_mergeBus
+#print axioms Spydr.Edif.C05.name_index_ident
+#print axioms Spydr.Edif.C05.name_index_name
+#print axioms Spydr.Edif.C05.member_index
+#print axioms Spydr.Edif.C05.member_index_instance
+#print axioms Spydr.Edif.C05.resolve_ci_declared
+#print axioms Spydr.Edif.C05.resolve_ci_undeclared
+#print axioms Spydr.Edif.C05.resolve_ci_sound
+#print axioms Spydr.Edif.C03.lex_layout
+#print axioms Spydr.Edif.C03.readS_flatten
+#print axioms Spydr.Edif.C03.read_lex_layout
+#print axioms Spydr.Edif.C03.name_index_roundtrip
+#print axioms Spydr.Edif.C03.name_index_plain
+#print axioms Spydr.Edif.C03.numeral_roundtrip
+#print axioms Spydr.Edif.C03.member_index_roundtrip
